@@ -46,6 +46,38 @@ impl Default for Mark {
     }
 }
 
+/// Defaults that begin with zero bytes and differ from zero only later: a probe that looks at a
+/// prefix of the default value ("is it all zero? then memset") gets these wrong.
+#[repr(C)]
+#[derive(Clone, Copy, PartialEq, Debug)]
+pub struct Rec {
+    id: u64,
+    version: u32,
+    flags: u16,
+}
+impl ConstDefault for Rec {
+    const DEFAULT: Rec = Rec { id: 0, version: 1, flags: 0x8000 };
+}
+impl Default for Rec {
+    fn default() -> Rec {
+        Rec::DEFAULT
+    }
+}
+#[repr(C)]
+#[derive(Clone, Copy, PartialEq, Debug)]
+pub struct Tail {
+    pad: [u64; 4],
+    last: u8,
+}
+impl ConstDefault for Tail {
+    const DEFAULT: Tail = Tail { pad: [0; 4], last: 9 };
+}
+impl Default for Tail {
+    fn default() -> Tail {
+        Tail::DEFAULT
+    }
+}
+
 thread_local! {
     /// out-of-band "key table": Keyed elements wipe the slot they name
     static TABLE: RefCell<Vec<u8>> = const { RefCell::new(Vec::new()) };
@@ -282,6 +314,10 @@ macro_rules! impl_zclen {
                     default_case::<Mark, N>(st, "Mark", &C_MARK);
                     default_case::<u8, N>(st, "u8", &C_U8);
                     default_case::<u64, N>(st, "u64", &C_U64);
+                    const C_REC: GA<Rec, N> = GenericArray::const_default();
+                    const C_TAIL: GA<Tail, N> = <GA<Tail, N> as ConstDefault>::DEFAULT;
+                    default_case::<Rec, N>(st, "Rec(zero-leading default)", &C_REC);
+                    default_case::<Tail, N>(st, "Tail(zero-leading default)", &C_TAIL);
                     // nested: the constant default of an array of arrays
                     const C_NEST: GA<GA<Mark, U2>, N> = GenericArray::const_default();
                     let n: usize = $n;
